@@ -374,6 +374,7 @@ def _run_ob(obl: Ob, funcs: set, no_solver=False) -> dict:
         res.setdefault("reached", 1)
         res.setdefault("message", "")
         r.update(res)
+        r["describe"] = _jsonable(obl.describe())
         return r
     r.update(run_crosshair(obl))
     return r
